@@ -485,7 +485,7 @@ pub fn run_once_in(sc: &Sc, mode: Mode, hash_seed: u64, keep_cache: bool, boc: O
     let published_today = sc.fx.as_ref().map(|f| f.published_today).unwrap_or(false);
     let today_d = parse_date(&sc.today);
     let mut env = ProcEnv::new(hash_seed, parse_date(&sc.today));
-    env.knobs = Knobs { max_write: usize::MAX, max_read: sc.max_read };
+    env.knobs = Knobs { max_write: usize::MAX, max_read: sc.max_read, eintr_every: 0 };
     let symbol_base = sc.symbol_base.clone();
     let summarize_before = sc.summarize_before.clone();
     let probe_items: Vec<String> = {
